@@ -32,15 +32,21 @@ func trueKind(r *routeIn) string {
 }
 
 // parentGateway: the Gateway a parentRef designates, if it belongs to this controller.
-func parentGateway(in *clusterIn, r *routeIn, p *parentIn) *gatewayIn {
+func parentGateway(in *clusterIn, v string, r *routeIn, p *parentIn) *gatewayIn {
 	if deref(p.Group, gwGroup) != gwGroup || deref(p.Kind, "Gateway") != "Gateway" {
 		return nil
 	}
 	ns := deref(p.NS, r.NS)
 	for i := range in.Gateways {
 		g := &in.Gateways[i]
+		if versionOf(in, g.V) != v {
+			continue
+		}
 		if g.NS == ns && g.Name == p.Name {
 			for _, c := range in.Classes {
+				if versionOf(in, c.V) != v {
+					continue
+				}
 				if c.Name == g.Class {
 					if c.Controller == in.Controller {
 						return g
@@ -61,6 +67,11 @@ func listenerAdmits(in *clusterIn, g *gatewayIn, l *listenerIn, r *routeIn, p *p
 	}
 	if l.Allowed == nil || l.Allowed.Namespaces == nil || l.Allowed.Namespaces.From == nil {
 		return false // cannot exist behind the CRD defaulting; admits nothing
+	}
+	// listener protocol vs route kind: the docs state that Port and Protocol are implemented for
+	// TCPRoute (not for HTTPRoute): a TCPRoute does not attach through an HTTP, HTTPS, TLS or UDP listener
+	if r.TCP && (l.Protocol == "HTTP" || l.Protocol == "HTTPS" || l.Protocol == "TLS" || l.Protocol == "UDP") {
+		return false
 	}
 	if len(l.Allowed.Kinds) > 0 {
 		ok := false
@@ -208,10 +219,10 @@ func linkOf(host string, m *matchIn) string {
 	return s
 }
 
-func sortedRoutes(in *clusterIn, tcp bool) []*routeIn {
+func sortedRoutes(in *clusterIn, v string, tcp bool) []*routeIn {
 	var rs []*routeIn
 	for i := range in.Routes {
-		if in.Routes[i].TCP == tcp {
+		if in.Routes[i].TCP == tcp && (tcp || versionOf(in, in.Routes[i].V) == v) {
 			rs = append(rs, &in.Routes[i])
 		}
 	}
@@ -224,49 +235,152 @@ func sortedRoutes(in *clusterIn, tcp bool) []*routeIn {
 	return rs
 }
 
-func oracle(in *clusterIn, obs *observed) (string, string) {
-	// expected: link -> owner backend (first admitted declaration in route order), and the admitted backends
-	wantPath := map[string]string{}
-	wantBack := map[string][]refUse{}
-	wantTCP := map[int]string{}
-	for _, tcp := range []bool{false, true} {
-		for _, r := range sortedRoutes(in, tcp) {
-			for pi := range r.Parents {
-				p := &r.Parents[pi]
-				g := parentGateway(in, r, p)
-				if g == nil {
-					continue
-				}
-				for li := range g.Listeners {
-					l := &g.Listeners[li]
-					if !listenerAdmits(in, g, l, r, p) {
+func isPassthrough(l *listenerIn) bool {
+	return l.TLS != nil && l.TLS.Mode != nil && *l.TLS.Mode == "Passthrough"
+}
+
+func hostName(h string) string {
+	if h == "" || h == "*" {
+		return "<default>"
+	}
+	return h
+}
+
+// specMatch: the Gateway API intersection of a listener hostname with one route hostname
+// (a "*." prefix is a suffix match of at least one more label; the more specific name is kept).
+func specMatch(l, r string) (string, bool) {
+	if r == "" || r == "*" {
+		return l, true
+	}
+	lw, rw := strings.HasPrefix(l, "*."), strings.HasPrefix(r, "*.")
+	switch {
+	case !lw && !rw:
+		return r, l == r
+	case lw && !rw:
+		return r, strings.HasSuffix(r, l[1:]) && len(r) > len(l[1:])
+	case !lw && rw:
+		return l, strings.HasSuffix(l, r[1:]) && len(l) > len(r[1:])
+	default:
+		if strings.HasSuffix(r[1:], l[1:]) {
+			return r, true
+		}
+		if strings.HasSuffix(l[1:], r[1:]) {
+			return l, true
+		}
+		return "", false
+	}
+}
+
+// specHostnames: the hostnames a route gets on a listener by the Gateway API text.
+func specHostnames(l *listenerIn, r *routeIn) []string {
+	if l.Hostname == nil || *l.Hostname == "" || *l.Hostname == "*" {
+		if len(r.Hostnames) == 0 {
+			return []string{"*"}
+		}
+		return r.Hostnames
+	}
+	if len(r.Hostnames) == 0 {
+		return []string{*l.Hostname}
+	}
+	out := []string{}
+	for _, h := range r.Hostnames {
+		if m, ok := specMatch(*l.Hostname, h); ok {
+			out = append(out, m)
+		}
+	}
+	return out
+}
+
+type expectation struct {
+	wantPath  map[string]string
+	wantBack  map[string][]refUse
+	wantTCP   map[int]string
+	hostsOf   map[string]map[string]bool // backend id -> hosts it may serve
+	passHosts map[string]bool            // hosts reachable through an admitting passthrough listener
+	passBack  map[string]bool            // HTTP backends admitted through a passthrough listener
+	hasPass   bool
+	diverge   map[string]bool // where the project (by its docs) departs from the Gateway API text
+}
+
+// expect walks the admitted combinations in declaration order, one pass per enabled API version.
+func expect(in *clusterIn) *expectation {
+	e := &expectation{wantPath: map[string]string{}, wantBack: map[string][]refUse{}, wantTCP: map[int]string{},
+		hostsOf: map[string]map[string]bool{}, passHosts: map[string]bool{}, passBack: map[string]bool{}, diverge: map[string]bool{}}
+	for _, v := range enabledVersions(in) {
+		for _, tcp := range []bool{false, true} {
+			for _, r := range sortedRoutes(in, v, tcp) {
+				for pi := range r.Parents {
+					p := &r.Parents[pi]
+					g := parentGateway(in, v, r, p)
+					if g == nil {
 						continue
 					}
-					for i := range r.Rules {
-						rule := &r.Rules[i]
-						us := usableRefs(in, r.NS, rule.Backends)
-						if len(us) == 0 {
+					for li := range g.Listeners {
+						l := &g.Listeners[li]
+						if !listenerAdmits(in, g, l, r, p) {
 							continue
 						}
-						if tcp {
-							id := fmt.Sprintf("%s_%s__tcprule%d", r.NS, r.Name, i)
-							wantBack[id] = us
-							if _, ok := wantTCP[l.Port]; !ok {
-								wantTCP[l.Port] = id
+						for i := range r.Rules {
+							rule := &r.Rules[i]
+							us := usableRefs(in, r.NS, rule.Backends)
+							if len(us) == 0 {
+								continue
 							}
-							continue
-						}
-						id := fmt.Sprintf("%s_%s__rule%d", r.NS, r.Name, i)
-						wantBack[id] = us
-						ms := rule.Matches
-						if len(ms) == 0 {
-							ms = []matchIn{{}}
-						}
-						for mi := range ms {
+							if tcp {
+								id := fmt.Sprintf("%s_%s__tcprule%d", r.NS, r.Name, i)
+								e.wantBack[id] = us
+								if _, ok := e.wantTCP[l.Port]; !ok {
+									e.wantTCP[l.Port] = id
+								}
+								for lj := range g.Listeners {
+									if lj != li && g.Listeners[lj].Port == l.Port {
+										e.diverge["listener-port-conflict"] = true
+									}
+								}
+								continue
+							}
+							id := fmt.Sprintf("%s_%s__rule%d", r.NS, r.Name, i)
+							e.wantBack[id] = us
+							if e.hostsOf[id] == nil {
+								e.hostsOf[id] = map[string]bool{}
+							}
+							if isPassthrough(l) {
+								e.hasPass = true
+								e.passBack[id] = true
+							}
+							if l.Protocol != "HTTP" && l.Protocol != "HTTPS" {
+								e.diverge["httproute-on-non-http-listener"] = true
+							}
+							if l.TLS != nil && !isPassthrough(l) {
+								ok := len(l.TLS.Certs) > 0
+								for _, c := range l.TLS.Certs {
+									if c != "crt0" {
+										ok = false
+									}
+								}
+								if !ok {
+									e.diverge["unresolved-certificate-ref-still-attached"] = true
+								}
+							}
+							if fmt.Sprint(hostnamesOf(l, r)) != fmt.Sprint(specHostnames(l, r)) {
+								e.diverge["hostname-not-intersected"] = true
+							}
+							ms := rule.Matches
+							if len(ms) == 0 {
+								ms = []matchIn{{}}
+							}
 							for _, h := range hostnamesOf(l, r) {
-								k := linkOf(h, &ms[mi])
-								if _, ok := wantPath[k]; !ok {
-									wantPath[k] = id
+								e.hostsOf[id][hostName(h)] = true
+								if isPassthrough(l) {
+									e.passHosts[hostName(h)] = true
+								}
+							}
+							for mi := range ms {
+								for _, h := range hostnamesOf(l, r) {
+									k := linkOf(h, &ms[mi])
+									if _, ok := e.wantPath[k]; !ok {
+										e.wantPath[k] = id
+									}
 								}
 							}
 						}
@@ -275,42 +389,14 @@ func oracle(in *clusterIn, obs *observed) (string, string) {
 			}
 		}
 	}
-	// nothing for a non-admitted combination; every admitted one present, owned by the first declaration
-	gotPath := map[string]string{}
-	for _, p := range obs.Paths {
-		gotPath[p.Link] = p.Backend
-		w, ok := wantPath[p.Link]
-		if !ok {
-			return "attached-not-admitted", fmt.Sprintf("host/path rule %q -> %s exists but no admitted (listener, rule, hostname, match) produces it", p.Link, p.Backend)
-		}
-		if w != p.Backend {
-			return "wrong-owner", fmt.Sprintf("host/path rule %q goes to %s, the first admitted declaration in route order is %s", p.Link, p.Backend, w)
-		}
-	}
-	for k, w := range wantPath {
-		if _, ok := gotPath[k]; !ok {
-			return "admitted-not-attached", fmt.Sprintf("admitted host/path rule %q -> %s is missing", k, w)
-		}
-	}
-	gotTCP := map[int]string{}
-	for _, t := range obs.TCP {
-		gotTCP[t.Port] = t.Backend
-		if w, ok := wantTCP[t.Port]; !ok {
-			return "attached-not-admitted", fmt.Sprintf("tcp service on port %d -> %s exists but no admitted TCPRoute rule produces it", t.Port, t.Backend)
-		} else if w != t.Backend {
-			return "wrong-owner", fmt.Sprintf("tcp service on port %d goes to %s, the first admitted declaration is %s", t.Port, t.Backend, w)
-		}
-	}
-	for port, w := range wantTCP {
-		if _, ok := gotTCP[port]; !ok {
-			return "admitted-not-attached", fmt.Sprintf("admitted tcp service on port %d -> %s is missing", port, w)
-		}
-	}
-	// backends: exactly the admitted rules, with the rule's backendRefs as weighted servers
+	return e
+}
+
+func checkBackends(e *expectation, obs *observed) (string, string) {
 	gotBack := map[string]bool{}
 	for _, b := range obs.Backends {
 		gotBack[b.ID] = true
-		us, ok := wantBack[b.ID]
+		us, ok := e.wantBack[b.ID]
 		if !ok {
 			return "attached-not-admitted", fmt.Sprintf("backend %s exists but its rule is not admitted by any listener", b.ID)
 		}
@@ -330,8 +416,8 @@ func oracle(in *clusterIn, obs *observed) (string, string) {
 			}
 		}
 		var got []string
-		for _, e := range b.Endpoints {
-			got = append(got, fmt.Sprintf("%s:%d w=%d", e.IP, e.Port, e.Weight))
+		for _, ep := range b.Endpoints {
+			got = append(got, fmt.Sprintf("%s:%d w=%d", ep.IP, ep.Port, ep.Weight))
 		}
 		sort.Strings(want)
 		sort.Strings(got)
@@ -339,10 +425,116 @@ func oracle(in *clusterIn, obs *observed) (string, string) {
 			return "backend-servers", fmt.Sprintf("backend %s has servers %v, its backendRefs give %v", b.ID, got, want)
 		}
 	}
-	for id := range wantBack {
+	for id := range e.wantBack {
 		if !gotBack[id] {
 			return "admitted-not-attached", fmt.Sprintf("backend %s of an admitted rule is missing", id)
 		}
 	}
 	return "", ""
+}
+
+func checkTCP(e *expectation, obs *observed) (string, string) {
+	gotTCP := map[int]string{}
+	for _, t := range obs.TCP {
+		gotTCP[t.Port] = t.Backend
+		if w, ok := e.wantTCP[t.Port]; !ok {
+			return "attached-not-admitted", fmt.Sprintf("tcp service on port %d -> %s exists but no admitted TCPRoute rule produces it", t.Port, t.Backend)
+		} else if w != t.Backend {
+			return "wrong-owner", fmt.Sprintf("tcp service on port %d goes to %s, the first admitted declaration is %s", t.Port, t.Backend, w)
+		}
+	}
+	for port, w := range e.wantTCP {
+		if _, ok := gotTCP[port]; !ok {
+			return "admitted-not-attached", fmt.Sprintf("admitted tcp service on port %d -> %s is missing", port, w)
+		}
+	}
+	return "", ""
+}
+
+func oracle(in *clusterIn, obs *observed) (string, string) {
+	e := expect(in)
+	if k, w := checkBackends(e, obs); k != "" {
+		return k, w
+	}
+	if k, w := checkTCP(e, obs); k != "" {
+		return k, w
+	}
+	// a rule's backend is shared by all the listeners it is attached through, and tcp mode sticks to
+	// it: a plain listener must not end up routing http to a tcp-mode backend, nor lose a root path
+	// to HTTPPassthroughBackend (only read for ssl-passthrough hosts)
+	for _, hb := range obs.HPB {
+		if !contains(obs.Pass, hb.Host) {
+			return "passthrough-mode-leaks-to-plain-listener", fmt.Sprintf("host %s is not ssl-passthrough but its root path to %s was moved to HTTPPassthroughBackend, where nothing reads it", hb.Host, hb.Backend)
+		}
+	}
+	for _, p := range obs.Paths {
+		host := strings.SplitN(p.Link, "\n", 2)[0]
+		if contains(obs.ModeTCP, p.Backend) && !contains(obs.Pass, host) {
+			return "passthrough-mode-leaks-to-plain-listener", fmt.Sprintf("host %s is not ssl-passthrough but %q goes to the tcp-mode backend %s", host, p.Link, p.Backend)
+		}
+	}
+	for _, id := range obs.ModeTCP {
+		if !strings.Contains(id, "__tcprule") && !e.passBack[id] {
+			return "attached-not-admitted", fmt.Sprintf("backend %s is in tcp mode but no passthrough listener admits its route", id)
+		}
+	}
+	for _, b := range obs.Backends {
+		if strings.Contains(b.ID, "__tcprule") && !contains(obs.ModeTCP, b.ID) {
+			return "admitted-not-attached", fmt.Sprintf("backend %s of a TCPRoute is not in tcp mode", b.ID)
+		}
+	}
+	for _, h := range obs.Pass {
+		if !e.passHosts[h] {
+			return "attached-not-admitted", fmt.Sprintf("host %s is ssl-passthrough but no passthrough listener admits a route for it", h)
+		}
+	}
+	for _, hb := range obs.HPB {
+		if _, ok := e.wantBack[hb.Backend]; !ok || !e.passHosts[hb.Host] || !e.hostsOf[hb.Backend][hb.Host] {
+			return "attached-not-admitted", fmt.Sprintf("host %s sends plain http to %s: not an admitted backend of a passthrough host", hb.Host, hb.Backend)
+		}
+	}
+	if e.hasPass {
+		// passthrough listeners: matches are dropped and root paths move; only "nothing for a
+		// non-admitted combination" is checked on the host paths
+		for _, p := range obs.Paths {
+			host := strings.SplitN(p.Link, "\n", 2)[0]
+			if _, ok := e.wantBack[p.Backend]; !ok || !e.hostsOf[p.Backend][host] {
+				return "attached-not-admitted", fmt.Sprintf("host/path rule %q -> %s exists but no admitted listener gives that host to that rule", p.Link, p.Backend)
+			}
+		}
+		return "", ""
+	}
+	if len(obs.Pass)+len(obs.HPB) > 0 {
+		return "attached-not-admitted", "ssl-passthrough state without any admitting passthrough listener"
+	}
+	// nothing for a non-admitted combination; every admitted one present, owned by the first declaration
+	gotPath := map[string]string{}
+	for _, p := range obs.Paths {
+		if _, dup := gotPath[p.Link]; dup {
+			return "wrong-owner", fmt.Sprintf("host/path rule %q is declared twice", p.Link)
+		}
+		gotPath[p.Link] = p.Backend
+		w, ok := e.wantPath[p.Link]
+		if !ok {
+			return "attached-not-admitted", fmt.Sprintf("host/path rule %q -> %s exists but no admitted (listener, rule, hostname, match) produces it", p.Link, p.Backend)
+		}
+		if w != p.Backend {
+			return "wrong-owner", fmt.Sprintf("host/path rule %q goes to %s, the first admitted declaration in route order is %s", p.Link, p.Backend, w)
+		}
+	}
+	for k, w := range e.wantPath {
+		if _, ok := gotPath[k]; !ok {
+			return "admitted-not-attached", fmt.Sprintf("admitted host/path rule %q -> %s is missing", k, w)
+		}
+	}
+	return "", ""
+}
+
+func contains(l []string, s string) bool {
+	for _, x := range l {
+		if x == s {
+			return true
+		}
+	}
+	return false
 }
